@@ -24,7 +24,7 @@ MODES = [("strict", None)] + [("require", ps) for ps in (["day"], ["month"], ["y
 PCS = {
     "absolute": (["absolute-time"], None),
     "default-minus-relative": (["timestamp", "custom-formats", "absolute-time"], None),
-    "custom-formats": (["custom-formats", "absolute-time"], ["%d %B %Y", "%B %Y", "%Y-%m-%d", "%d %B", "%H:%M", "%d %Y", "%d %Y %H:%M", "%Y %W %a", "%Y %U %w", "%a %W %Y", "%Y %W"]),
+    "custom-formats": (["custom-formats", "absolute-time"], ["%d %B %Y", "%B %Y", "%Y-%m-%d", "%d %B", "%H:%M", "%d %Y", "%d %Y %H:%M", "%Y %W %a", "%Y %U %w", "%Y %W"]),
 }
 _S = None
 
